@@ -298,6 +298,8 @@ func runC03(p *an.Prog, r *an.Run, tier string) {
 		return
 	}
 	r.Analysed(an.FuncName(onClient), an.FuncName(onUpdate))
+	checkMinBalanceWiring(p, r)
+	checkBalanceReadErrors(p, r)
 	// every function constructing a LowBalanceError must be one of the two anchors
 	n := 0
 	for _, fn := range p.Repo {
@@ -819,6 +821,10 @@ func runC02(p *an.Prog, r *an.Run, tier string) {
 		}
 		r.Analysed(an.FuncName(m))
 		checkLastSeenWritten(p, r, d, m)
+		if sn := p.MethodOf(d, "SetNode"); sn != nil {
+			r.Analysed(an.FuncName(sn))
+			checkSetNodeStoresParam(p, r, d, sn)
+		}
 	}
 	conn := p.Method("pool", "VipnodePool", "connect")
 	if conn != nil {
@@ -1167,4 +1173,272 @@ func pathFromBlockCut(fn *ssa.Function, b *ssa.BasicBlock, bad func(ssa.Instruct
 		return first
 	}
 	return an.PathAvoiding(fn, first, nil, bad, cut)
+}
+
+// checkSetNodeStoresParam: SetNode persists the caller's record, in particular its LastSeen (connect relies on it to
+// restart the billing clock): the record written to the node space receives the parameter as a whole, and its
+// LastSeen is not overwritten from anything else (e.g. the record stored earlier).
+func checkSetNodeStoresParam(p *an.Prog, r *an.Run, d *types.Named, m *ssa.Function) {
+	kind := driverKind(d)
+	key := kind + ".SetNode"
+	var bad []string
+	if len(m.Params) < 2 {
+		r.Undec("lastseen-written", key, m.Pos(), "SetNode has no node parameter")
+		return
+	}
+	prm := m.Params[1]
+	fns := an.WithAnon(m)
+	isParamVal := func(v ssa.Value) bool {
+		v = an.Unspill(v)
+		if v == ssa.Value(prm) {
+			return true
+		}
+		if fv, ok := v.(*ssa.FreeVar); ok && fv.Name() == prm.Name() {
+			return true
+		}
+		if u, ok := v.(*ssa.UnOp); ok && u.Op == token.MUL {
+			root, path := an.RootPath(u.X)
+			if path != "" {
+				return false
+			}
+			if fv, ok := root.(*ssa.FreeVar); ok && fv.Name() == prm.Name() {
+				return true
+			}
+			if a, ok := root.(*ssa.Alloc); ok {
+				n, okAll := 0, true
+				for _, ref := range *a.Referrers() {
+					if st, ok := ref.(*ssa.Store); ok && st.Addr == ssa.Value(a) {
+						n++
+						if st.Val != ssa.Value(prm) {
+							okAll = false
+						}
+					}
+				}
+				return n == 1 && okAll
+			}
+		}
+		return false
+	}
+	nWrites := 0
+	for _, o := range driverOps(p, d, m) {
+		if o.Kind != opWrite || !o.inSpace("node") || o.Val == nil {
+			continue
+		}
+		nWrites++
+		v := underlyingConcrete(o.Val)
+		if u, ok := v.(*ssa.UnOp); ok && u.Op == token.MUL {
+			v = u.X
+		}
+		rec, _ := an.RootPath(v)
+		whole := false
+		if isParamVal(v) || isParamVal(o.Val) {
+			whole = true
+		}
+		if a, ok := rec.(*ssa.Alloc); ok {
+			for _, ref := range *a.Referrers() {
+				if st, ok := ref.(*ssa.Store); ok && st.Addr == ssa.Value(a) && st.Val == ssa.Value(prm) {
+					whole = true // the record is the parameter's own cell
+				}
+			}
+		}
+		for _, fn := range fns {
+			an.AllInstrs(fn, func(in ssa.Instruction) {
+				st, ok := in.(*ssa.Store)
+				if !ok {
+					return
+				}
+				root, _ := an.RootPath(st.Addr)
+				if !sameObject(root, rec) {
+					return
+				}
+				if n, ok := st.Val.Type().(*types.Named); ok && n.Obj().Name() == "Node" && n.Obj().Pkg() != nil && strings.HasSuffix(n.Obj().Pkg().Path(), "pool/store") {
+					if isParamVal(st.Val) {
+						whole = true
+					} else {
+						bad = append(bad, "the stored record's Node part is not the caller's record ("+p.Pos(st.Pos())+")")
+					}
+					return
+				}
+				if fv := an.FieldOf(st.Addr); fv != nil && fv.Name() == "LastSeen" {
+					bad = append(bad, "the stored record's LastSeen is overwritten ("+p.Pos(st.Pos())+"): a re-registration (connect) would not restart the billing clock and the first keep-alive after it bills the offline gap")
+				}
+			})
+		}
+		if !whole {
+			bad = append(bad, "the record written to the node space does not receive the caller's record as a whole")
+		}
+	}
+	if nWrites == 0 {
+		bad = append(bad, "SetNode does not write the node space")
+	}
+	r.Check(len(bad) == 0, "lastseen-written", key, m.Pos(), "SetNode persists the caller's record, LastSeen included", "%s", strings.Join(dedup(bad), "; "))
+}
+
+// checkMinBalanceWiring: the pool binary installs the configured minimum for every value of the option except the
+// documented "off": the store into payPerInterval.MinBalance in main is controlled only by the "off" comparison and by
+// error gates, and its value derives from the option.
+func checkMinBalanceWiring(p *an.Prog, r *an.Run) {
+	runPool := p.Func("", "runPool")
+	if runPool == nil {
+		r.Undec("wiring", "main.runPool", token.NoPos, "main.runPool not found")
+		return
+	}
+	r.Analysed(an.FuncName(runPool))
+	n := 0
+	var bad []string
+	for _, fn := range regionFuncs(p, runPool) {
+		an.AllInstrs(fn, func(in ssa.Instruction) {
+			st, ok := in.(*ssa.Store)
+			if !ok {
+				return
+			}
+			fv := an.FieldOf(st.Addr)
+			if fv == nil || fv.Name() != "MinBalance" {
+				return
+			}
+			if _, ok := fv.Type().(*types.Pointer); !ok {
+				return
+			}
+			n++
+			dv := p.DerivesIn(runPool, 2, st.Val)
+			fromOption := false
+			for _, nd := range dv.Nodes {
+				if f := an.FieldOf(nd); f != nil && f.Name() == "MinBalance" {
+					if b, ok := f.Type().Underlying().(*types.Basic); ok && b.Info()&types.IsString != 0 {
+						fromOption = true
+					}
+				}
+			}
+			if !fromOption {
+				bad = append(bad, "the installed minimum at "+p.Pos(st.Pos())+" does not derive from the min-balance option")
+			}
+			for _, c := range an.ControllingIfs(st.Block()) {
+				if isErrNilTest(c.If.Cond) {
+					continue
+				}
+				if rel, ok := an.NormCond(c.If.Cond); ok && rel.Kind == "string" && (rel.Op == token.EQL || rel.Op == token.NEQ) {
+					ls, lok := an.ConstString(rel.L)
+					rs, rok := an.ConstString(rel.R)
+					if (lok && ls == "off") || (rok && rs == "off") {
+						continue
+					}
+				}
+				bad = append(bad, "the configured minimum is installed only under an extra condition ("+p.Pos(c.If.Pos())+"): for the values it excludes a client below the minimum is neither refused nor cut off")
+			}
+		})
+	}
+	r.Floor("min-balance-wiring", n, 1)
+	r.Check(len(bad) == 0, "wiring", "main.runPool", runPool.Pos(), "the configured minimum is installed for every value but \"off\"", "%s", strings.Join(dedup(bad), "; "))
+}
+
+// isErrNilTest: v is "e == nil" / "e != nil" for an error-typed e.
+func isErrNilTest(v ssa.Value) bool {
+	b, ok := v.(*ssa.BinOp)
+	if !ok || (b.Op != token.EQL && b.Op != token.NEQ) {
+		return false
+	}
+	isNil := func(x ssa.Value) bool { c, ok := x.(*ssa.Const); return ok && c.Value == nil }
+	isErr := func(x ssa.Value) bool { return types.Identical(x.Type(), types.Universe.Lookup("error").Type()) }
+	return (isNil(b.Y) && isErr(b.X)) || (isNil(b.X) && isErr(b.Y))
+}
+
+// checkBalanceReadErrors: the spendable balance compared with the minimum is what BalanceStore.GetNodeBalance returns.
+// A BalanceStore that composes it from several sources (the contract proxy: stored credit + on-chain deposit) must
+// report a failed source as an error; returning the partial balance with a nil error makes a funded client look poor
+// (refused / cut off with a wrong CurrentBalance).
+func checkBalanceReadErrors(p *an.Prog, r *an.Run) {
+	bs := p.Iface("pool/store", "BalanceStore")
+	full := p.Iface("pool/store", "Store")
+	n := 0
+	for _, impl := range p.Implementations(bs) {
+		if full != nil && (types.Implements(impl, full) || types.Implements(types.NewPointer(impl), full)) {
+			continue // the drivers: single-source reads, covered by C12/C13
+		}
+		for _, name := range []string{"GetNodeBalance", "GetAccountBalance"} {
+			m := p.MethodOf(impl, name)
+			if m == nil || p.IsTestFunc(m) {
+				continue
+			}
+			n++
+			r.Analysed(an.FuncName(m))
+			var bad []string
+			for _, fn := range regionFuncs(p, m) {
+				for _, c := range an.Calls(fn, false) {
+					bad = append(bad, failPropagates(p, fn, c)...)
+					bad = append(bad, sentinelSwallowed(p, fn, c)...)
+				}
+			}
+			r.Check(len(bad) == 0, "balance-errors", an.FuncName(m), m.Pos(), "a failed balance source is reported, never replaced by a partial balance", "%s", strings.Join(dedup(bad), "; "))
+		}
+	}
+	r.Floor("composed-balance-reads", n, 2)
+}
+
+// sentinelSwallowed: "if err == ErrSomething { return partial, nil }" — on the branch where a call's error equals a
+// sentinel (so it is non-nil) no return may report success.
+func sentinelSwallowed(p *an.Prog, fn *ssa.Function, c ssa.CallInstruction) []string {
+	var bad []string
+	evs := an.ErrValues(c)
+	isEv := func(v ssa.Value) bool {
+		for _, e := range evs {
+			if e == v {
+				return true
+			}
+		}
+		return false
+	}
+	for _, ev := range evs {
+		for _, ref := range *ev.Referrers() {
+			b, ok := ref.(*ssa.BinOp)
+			if !ok || (b.Op != token.EQL && b.Op != token.NEQ) {
+				continue
+			}
+			other := b.Y
+			if other == ev {
+				other = b.X
+			}
+			if cst, ok := other.(*ssa.Const); ok && cst.Value == nil {
+				continue
+			}
+			for _, rr := range *b.Referrers() {
+				iff, ok := rr.(*ssa.If)
+				if !ok {
+					continue
+				}
+				eq := 0
+				if b.Op == token.NEQ {
+					eq = 1
+				}
+				start := iff.Block().Succs[eq]
+				seen := map[*ssa.BasicBlock]bool{}
+				work := []*ssa.BasicBlock{start}
+				for len(work) > 0 {
+					blk := work[len(work)-1]
+					work = work[:len(work)-1]
+					if seen[blk] {
+						continue
+					}
+					seen[blk] = true
+					for _, in := range blk.Instrs {
+						if ret, ok := in.(*ssa.Return); ok {
+							res := an.RetResults(ret)
+							if len(res) == 0 {
+								continue
+							}
+							last := res[len(res)-1]
+							if an.IsErrorType(last.Type()) && !(definitelyNonNilError(last) || isEv(last) || returnOnFailEdge(ret, last)) {
+								bad = append(bad, "when "+callName(c)+" fails with a particular error ("+p.Pos(iff.Pos())+") the return at "+p.Pos(ret.Pos())+" reports success with a partial result")
+							}
+						}
+					}
+					for i, sc := range blk.Succs {
+						if !an.DeadEdge(blk, i) {
+							work = append(work, sc)
+						}
+					}
+				}
+			}
+		}
+	}
+	return dedup(bad)
 }
